@@ -37,6 +37,7 @@ type CProg struct {
 	Progs   map[string][]COp `json:"progs"`
 	Sched   []CStep          `json:"sched"`
 	FaultAt int              `json:"faultAt"` // 1-based index of the failing write-side transport op, 0 = none
+	FaultKind string         `json:"faultKind"` // "" / "err" | "timeout" | "short" (a write that accepts one byte and then fails)
 	Free    bool             `json:"free"`    // free-running stress: no gates, random yields
 	Seed    uint64           `json:"seed"`
 	Block   int              `json:"blockms"` // free mode: hold the writer inside the transport for this long
@@ -331,7 +332,11 @@ func (r *concRun) exec() {
 		}
 	}
 	if p.FaultAt > 0 {
-		sc.Faults[p.FaultAt-1] = &xport.Fault{Kind: "err"}
+		k := p.FaultKind
+		if k == "" {
+			k = "err"
+		}
+		sc.Faults[p.FaultAt-1] = &xport.Fault{Kind: k, Short: 1}
 	}
 	sc.After = r.onOp
 	sc.Hook = func(kind string, widx int, data []byte) {
